@@ -119,6 +119,23 @@ CLAIMED = {
         "length mismatches are not claimed; harness.",
         "DESIGN.md section 5, C03",
     ),
+    "C09": (
+        "Coq proofs by induction over histories (invariant + append-only refinement to the list of successful additions) "
+        "about a hand-written executable state-machine model of Vocabulary; histories replayed on the implementation and the "
+        "model, full observable state compared in Coq after every step",
+        "Theorems for histories of any length over add / item access / membership / create_pointer / parse / populate / "
+        "create_subset, including failing calls: the invariant (keys, index map and vector matrix aligned, keys valid and "
+        "distinct, vectors of the right length) holds in every reachable state; every step only appends to the (key, vector) "
+        "list, so stored vectors never change; an addition appends exactly its pair or leaves the state unchanged, and "
+        "succeeds iff the name is valid, not reserved, new, and the pointer belongs to this vocabulary/algebra and has the "
+        "right length; strict vocabularies never gain keys through lookup/parse/subset; non-strict lookup adds exactly the "
+        "missing valid key with the next generated vector; len / iteration / membership agree with the abstract list. "
+        "Tie: exhaustive histories to length 2 (thorough 3) + random to length 40 over a 60-op alphabet, strict and "
+        "non-strict, three algebras, with aliasing probes. One defect (wrong-length add) found and repaired.",
+        "Trusted: Coq kernel + vm_compute; Model/Vocab.v; pointer generator scripted (selection logic is C10); parse "
+        "modelled by its state effect; harness. No axioms.",
+        "DESIGN.md section 5, C09",
+    ),
 }
 
 NOT_YET = "not yet built in this revision of /verif (design in DESIGN.md section 5); no check is claimed"
